@@ -184,9 +184,13 @@ pub fn run_ast(ast: &BlockStmt, opts: RunOpts) -> ImplOutcome {
     if opts.trace {
         verif::trace_start();
     }
+    // exactly what `eval` does after parsing: fresh compiler and machine, result handed over to the caller
     let r = catch_unwind(AssertUnwindSafe(|| {
         let code = Compiler::new().compile_ast(ast)?;
-        VM::new().run(code)
+        let mut vm = VM::new();
+        let result = vm.run(code)?;
+        vm.untrace(result);
+        Ok(result)
     }));
     finish(r, opts)
 }
